@@ -48,7 +48,7 @@ def fmt_dest(d):
 
 
 def gen_relay_file(r):
-  nsec = r.randint(1, 6)
+  nsec = r.choice([1, 2, 3, 4, 5, 6, 6, 8, 9, 12, 16])
   secs = []
   for i in range(nsec):
     dests = r.sample(DESTS, r.randint(1, 3))
